@@ -108,8 +108,8 @@ def run(ctx, rep):
             rep.check("C10.validate", "%s only after %s" % (what, need), has_ok(f, pat), loc_of(b, t),
                       "every path to this %s passes the success edge" % what,
                       "%s at %s is reachable without '%s': a failing edit/validation could leave the file modified; facts: %s" % (what, loc_of(b, t), need, fact_str(f)))
-    rep.floor("C10.validate", "in-place writes", len(writers), 3)
-    rep.floor("C10.validate", "rebuild calls", len(rebuilds), 2)
+    rep.floor("C10.validate", "in-place writes", len(writers), 1)
+    rep.floor("C10.validate", "rebuild calls", len(rebuilds), 1)
     # the dry run must serialise the edited list (same BlockList local as the one written later)
     dry = [(i, t) for i, t in call_blocks(b, r"metadata::write_blocks$")]
     rep.check("C10.validate", "exactly one dry-run write_blocks into Counter<Sink>", len(dry) == 1 and "Sink" in dry[0][1]["aty"][0], loc_of(b), str([t["aty"][0] for _, t in dry]))
@@ -244,7 +244,7 @@ def run(ctx, rep):
         elif sname.endswith("rebuild_file"):
             nflag += 1
             rep.check("C10.flag", "rebuild reports true", val == 1, loc_of(b, t), "", "a rebuild reports %s" % val)
-    rep.floor("C10.flag", "flagged results", nflag, 5)
+    rep.floor("C10.flag", "flagged results", nflag, 2)
 
     # ---- C10.copy --------------------------------------------------------------------------------------------
     rb = anchor(F, rep, "C10.copy", "metadata::update_file::rebuild_file")
